@@ -37,8 +37,8 @@ def main():
     demo = open(os.path.join(seeded, "demo.py")).read()
     notes = open(os.path.join(seeded, "notes.md")).read() if os.path.exists(os.path.join(seeded, "notes.md")) else ""
     # make the demonstration location independent
-    demo = re.sub(r"(['\"])/tmp/w[t2345678]_[A-Za-z0-9_]+\1", "_TD", demo)
-    demo = re.sub(r"(['\"])/tmp/w[t2345678]_[A-Za-z0-9_]+/", r"_TD + \1/", demo)
+    demo = re.sub(r"(['\"])/tmp/w[t23456789]_[A-Za-z0-9_]+\1", "_TD", demo)
+    demo = re.sub(r"(['\"])/tmp/w[t23456789]_[A-Za-z0-9_]+/", r"_TD + \1/", demo)
     demo = "import os as _os\n_TD = _os.environ.get('TORCHTT_DIR', '/repo')\n" + demo
     build_sh = os.path.join(seeded, "build.sh")
     scratch = tempfile.mkdtemp(prefix="vt_seed_")
